@@ -269,4 +269,5 @@ func TestVerifReplay_syncer_bookkeepingKeys(t *testing.T) {
 		return
 	}
 	fmt.Println("NOT-REPRODUCED")
+	fmt.Println("BOUNDED-OK cases=3")
 }
